@@ -363,6 +363,32 @@ def stepCore (st : St) (line : String) : St × String :=
       let r := deliverTx (mkEnv classes) c.st { sender := sender, root := node }
       ({ st with classes := classes }, statusStr r.1.2 ++ " " ++ dump c)
     | _, _, _ => (st, "bad-op")
+  | ["genesis", shape, st_] =>      -- an app started from a genesis document carrying that account shape at both system addresses
+    let storage : List (Bytes × Bytes) := if st_ != "0" then [([0], [0xc1, 0x17])] else []
+    let genuine : SysC → Bytes := fun c => match c with | .staking => [1] | .gov => [2]
+    let foreign : Bytes := [0xff]
+    let prior : Option (Option GenAccount) :=
+      if shape = "none" then some none
+      else if shape = "codeless" then some (some { kind := .eth, code := [], storage := [] })
+      else if shape = "base" then some (some { kind := .base, code := [], storage := [] })
+      else if shape = "genuine" then some (some { kind := .eth, code := [0], storage := storage })   -- replaced per address below
+      else if shape = "foreign" then some (some { kind := .eth, code := foreign, storage := storage })
+      else none
+    match prior with
+    | none => (st, "bad-op")
+    | some prior =>
+      let accts : Accounts := fun a =>
+        if a = stakingAddr ∨ a = govAddr then
+          (if shape = "genuine" then prior.map (fun p => { p with code := if a = stakingAddr then genuine .staking else genuine .gov }) else prior)
+        else none
+      let after := adapterInitGenesis genuine accts
+      let show_ (c : SysC) : String :=
+        match after c.addr with
+        | none => "none"
+        | some acc =>
+          (if acc.code = genuine c then "genuine" else if acc.code.isEmpty then "codeless" else "foreign") ++
+          (match acc.kind with | .eth => ":eth" | .base => ":base")
+      (st, show_ .staking ++ " " ++ show_ .gov)
   | "cinit" :: fs =>
     match parseInit fs with
     | some c => ({ st with ccur := some c, cskip := false }, "ok " ++ dump c)
